@@ -3,6 +3,7 @@ package main
 import (
 	"bytes"
 	"fmt"
+	"strings"
 
 	simdjson "github.com/minio/simdjson-go"
 
@@ -72,7 +73,7 @@ func forEachNDInput(w *W, fn func(name string, text []byte)) {
 
 	// boundary carriers: root boundaries on every index-buffer slot around the flush edges
 	_, flushAt, _ := simdjson.VerifGeometry()
-	suffix := "{\"a\":1}\n\n[true]\r\n \n{}\n[[],{\"b\":\"q\"}]\n{}"
+	suffix := "[\"q\\\"r\",\"\\\\\"]\n{\"a\":1}\n\n[true]\r\n \n{\"e\\\"k\":\"v\\\\\"}\n[[],{\"b\":\"q\"}]\n{}"
 	ranges := [][2]int{{flushAt - 30, flushAt + 90}, {2*flushAt - 30, 2*flushAt + 180}, {16*flushAt + 600, 16*flushAt + 700}}
 	if w.Thorough() {
 		ranges[2] = [2]int{16 * flushAt, 16*flushAt + 1400}
@@ -121,6 +122,84 @@ func forEachNDInput(w *W, fn func(name string, text []byte)) {
 		b.WriteString("\n{\"z\":9}")
 		w.res.Transitions++
 		fn("8k", b.Bytes())
+	}
+	// flush edge x escape: the odd-backslash carry must survive the flush of an index buffer.
+	// P dense structural bytes, then a line whose string has its escaped quote f bytes further.
+	_, flushAt2, _ := simdjson.VerifGeometry()
+	w.Note(fmt.Sprintf("flush x escape sweep: P = %d..%d structural bytes of {} lines, then a line [\"xx..\\\"q\",\"\\\\\"] with 0..70 filler bytes before the escaped quote, then {}; every combination", flushAt2-70, flushAt2+70))
+	for P := flushAt2 - 70; P <= flushAt2+70; P++ {
+		w.res.States++
+		if !w.Mine() || w.Expired() {
+			continue
+		}
+		var pre bytes.Buffer
+		rem := P
+		for rem%3 != 0 {
+			pre.WriteString("[0]\n")
+			rem -= 4
+		}
+		for ; rem > 0; rem -= 3 {
+			pre.WriteString("{}\n")
+		}
+		for f := 0; f <= 70; f++ {
+			var b bytes.Buffer
+			b.Write(pre.Bytes())
+			b.WriteString(`["`)
+			b.WriteString(strings.Repeat("x", f))
+			b.WriteString(`\"q","\\","\\\""]`)
+			b.WriteString("\n{}")
+			w.res.Transitions++
+			fn("flush-x-escape", b.Bytes())
+		}
+	}
+	// escapes x flush edge x alignment: many lines with escaped quotes / trailing escaped
+	// backslashes (byte count and structural count drift apart), first line padded by 0..63
+	// bytes so that every later byte visits every offset modulo 64 - in particular the
+	// backslash of an escape becomes the last byte of the block at which an index buffer is
+	// flushed
+	w.Note("escape x flush x alignment: 151 and 401 lines of 3 shapes with escaped quotes / escaped backslashes before the closing quote, first line padded by 0..63 bytes")
+	shapes := []string{`{"k":"a\"b","p":["c\"","\"d"]}`, `{"dir":"C:\\dir\\N\\","x":"\\"}`, `["\\\"","q\\\\\"r"]`}
+	for _, lines := range []int{151, 401} {
+		for si, shape := range shapes {
+			for pad := 0; pad < 64; pad++ {
+				w.res.States++
+				if !w.Mine() || w.Expired() {
+					continue
+				}
+				var b bytes.Buffer
+				b.WriteString(`{"pad":"` + strings.Repeat("x", pad) + `"}` + "\n")
+				for i := 0; i < lines; i++ {
+					b.WriteString(shape)
+					if (i+si)%7 == 0 {
+						b.WriteString(" ")
+					}
+					b.WriteString("\n")
+				}
+				b.WriteString(`{"end":true}`)
+				w.res.Transitions++
+				fn("escape-x-flush-x-alignment", b.Bytes())
+			}
+		}
+	}
+	// alignment: each bad line behind a first line of every length, so that every byte of the
+	// bad line (a quote directly followed by garbage, ...) falls on every offset modulo 64
+	alignBad := []string{`["abc"1]`, `{"a":"b"c}`, `["x"]"y"`, `[1]x`, `["a\"]`, `{"k":"v"}}`}
+	w.Note(fmt.Sprintf("alignment carriers: a first line {\"p\":\"xx..\"} of every length 8..140, then each of %d bad lines and one good line, LF and CRLF", len(alignBad)))
+	for pad := 0; pad <= 132; pad++ {
+		w.res.States++
+		if !w.Mine() || w.Expired() {
+			continue
+		}
+		for _, bad := range append(alignBad, `["ok"]`) {
+			for eol := 0; eol < 2; eol++ {
+				nl := "\n"
+				if eol == 1 {
+					nl = "\r\n"
+				}
+				w.res.Transitions++
+				fn("alignment", []byte(`{"p":"`+strings.Repeat("x", pad)+`"}`+nl+bad+nl+`{"z":1}`))
+			}
+		}
 	}
 	// inputs above the 8 KiB threshold with exactly one bad line first, in the middle or last
 	badLines := []string{`[`, `1`, `{} {}`, `[1,`, `2]`, `}`, `[{"id":1}`, `{"a":{"b":1}`, `{"a":"x`, `y"}`, "[\"a\tb\"]", `[tru]`, `{"a":1,}`, `[01]`}
